@@ -14,7 +14,7 @@ SBad(e) ==
   IF ~Returned(e) THEN {"Returned"}
   ELSE IF e.api = "hb" THEN
        F("PosSync", PosSync(e)) \cup F("Budget", Budget(e))
-       \cup (IF BoundsInside(e) THEN F("InRange", InRange(e)) \cup (IF e.lvl <= 1 THEN F("Monotone", Monotone(e)) ELSE {}) ELSE {})
+       \cup (IF BoundsInside(e) THEN F("InRange", InRange(e)) \cup (IF e.lvl <= 1 THEN F("Monotone", Monotone(e)) \cup F("StartCovered", StartCovered(e)) ELSE {}) ELSE {})
   ELSE F("Range", RuneRange(e)) \cup F("Budget", Budget(e))
        \cup (IF BoundsInside(e) THEN F("InRange", InRange(e)) \cup F("Monotone", Monotone(e)) \cup F("ClusterUniform", ClusterUniform(e)) \cup F("CountsSum", CountsSum(e)) ELSE {})
        \cup (IF SumFits(e) THEN F("AdvSum", G!AdvSum(e)) ELSE {}) \cup F("CrossZero", G!CrossZero(e)) \cup F("BoundsEnclose", G!BoundsEnclose(e)) \cup F("BoundsTight", G!BoundsTight(e))
